@@ -12,6 +12,12 @@ From Verif Require Sched.Model.
 
 From Verif Require Wire.Model.
 
+From Verif Require Modbus.C18Check.
+
+From Verif Require Modbus.C19Check.
+
+From Verif Require Auth.Model.
+
 (* area id -> checker *)
 Definition dispatch (area : N) (v : val) : N :=
   match area with
@@ -26,6 +32,9 @@ Definition dispatch (area : N) (v : val) : N :=
   | 20%N => Store.CheckConc.check_c20 v
   | 14%N => Sched.Model.check_val v
   | 12%N => Wire.Model.check_val v
+  | 18%N => Modbus.C18Check.check_val v
+  | 19%N => Modbus.C19Check.check_val v
+  | 9%N => Auth.Model.check_val v
   | _ => 98%N
   end.
 
